@@ -311,7 +311,12 @@ def oracle(c, ctx):
             with np.errstate(all="ignore"):
                 want_v = oc.PYOP[f](float(n_), float(d_))
         g = float(got[i])
-        if not (math.isfinite(want_v) and math.isfinite(g)):
+        if not math.isfinite(want_v):
+            continue
+        if not math.isfinite(g):
+            # a silently infinite / nan value is legitimate only when the magnitude leaves the float range
+            if abs(want_v) < (1e30 if (oc.uses_f32(kspec) or isinstance(got[i], np.float32)) else 1e250) and not cls:
+                return fail(clause="the operation is applied to the value(s)", form=form, index=i, got=g, want=want_v)
             continue
         f32 = oc.uses_f32(kspec) or isinstance(got[i], np.float32)
         tol = (1e-5 if f32 else 1e-9) * max(abs(want_v), abs(float(n_)), abs(float(d_)), 1e-300)
